@@ -155,10 +155,18 @@ class DSDLDefinition(ReadableDSDLFile):
         :raises InvalidDefinitionError: If the file does not exist.
         """
         root_path = cls._infer_path_to_root_from_first_found(dsdl_path, valid_dsdl_roots)
-        if not dsdl_path.is_absolute():
-            dsdl_path_resolved = (root_path.parent / dsdl_path).resolve(strict=False)
-        else:
+        if dsdl_path.is_absolute():
             dsdl_path_resolved = dsdl_path.resolve(strict=False)
+        else:
+            try:
+                _ = dsdl_path.relative_to(root_path)
+            except ValueError:
+                # The root lies elsewhere and the relative target was found under the parent of that root.
+                dsdl_path_resolved = (root_path.parent / dsdl_path).resolve(strict=False)
+            else:
+                # The root is a leading part of the relative target, so the target is relative to the same directory
+                # as the root (the current working directory) and shall not be welded to the parent of the root again.
+                dsdl_path_resolved = dsdl_path.resolve(strict=False)
         return cls(dsdl_path_resolved, root_path)
 
     def __init__(self, file_path: Path, root_namespace_path: Path):
